@@ -3,7 +3,7 @@
 WT=${1:-/repo}
 cd "$WT" || exit 2
 export MPLBACKEND=Agg
-J=$(mktemp /tmp/wt/junit.XXXXXX.xml)
+mkdir -p /tmp/wt; J=$(mktemp /tmp/wt/junit.XXXXXX.xml)
 /venv/bin/python -m pytest -q -p no:cacheprovider --timeout=900 --continue-on-collection-errors -n ${NPROC:-6} --junitxml=$J > $J.log 2>&1
 /venv/bin/python - "$J" <<'PY'
 import json, sys, xml.etree.ElementTree as ET
